@@ -188,7 +188,8 @@ PROPERTIES = {
                       H("HarnessC12a", b(N=7, PRE=1, F=7, OPMASK=2, NOPROBE=1, CONCRETEKEYS=1, LRULER=1, **{"SEQ.pre": 0}), sample_every=500),
                       # cursor Min / Max (operations 7, 8) under every load fault, retried on the same cursor, on the height-3 tree
                       H("HarnessC12a", b(N=7, PRE=0, F=5, OPMASK=384, NOPROBE=1, CONCRETEKEYS=1, LRULER=1), sample_every=20)],
-            "thorough": [H("HarnessC12a", b(N=3, PRE=0, F=5), sample_every=1000), H("HarnessC12a", b(N=2, PRE=1, F=3), sample_every=1000), H("HarnessC12a", b(N=3, PRE=1, F=4), sample_every=3000)],
+            # (N=3,PRE=1,F=4 did not finish within 25 minutes together with the rest: not registered)
+            "thorough": [H("HarnessC12a", b(N=3, PRE=0, F=5), sample_every=1000), H("HarnessC12a", b(N=2, PRE=1, F=3), sample_every=1000)],
         },
         "must_reach": ["C12.contents-unchanged", "C12.size-unchanged", "C12.retry-result", "C12.contents-after-retry"],
         "bounds_statement": "tree of N ascending entries persisted and re-loaded (every node behind a Load), PRE successful modifications (dirty in-memory path above persisted children), then one of Insert/Delete/Get/Iter/Clone/Cursor(Ceil,Forward,Backward)/DiffIter/Cursor.Min/Cursor.Max with a fault at the n-th Persist.Load or the n-th KeyCompare call of that operation (n < F); after an error: Size, Height, full Iter, Get(probe) against the pre-operation model, then the same call retried without the fault",
